@@ -1,2 +1,3 @@
+pub mod geom;
 pub mod links;
 pub mod mref;
